@@ -5,7 +5,7 @@
 # while something else is using it.  Used only for evaluating seeded changes.
 set -u
 WT="$(readlink -f "$1")"; shift
-VW=/tmp/vw
+VW="${VW:-/tmp/vw}"
 SRC="$(cd "$(dirname "${BASH_SOURCE[0]}")/.." && pwd)"
 mkdir -p "$VW"
 rsync -a --delete --exclude target --exclude .work --exclude replays --exclude evidence --exclude .git \
